@@ -9,11 +9,13 @@
 EXTENDS Kernel, TLC
 
 CONSTANTS LibKind,     \* [known signal -> "term" | "stop" | "ignore"]: the code's table
-          Unblocks     \* TRUE (the code): the signal is unblocked before the re-raise
+          Unblocks     \* "this" (the code): exactly the signal is unblocked before the re-raise
+                       \* | "all" (the whole mask is cleared) | "none"
 
 Known == DOMAIN LibKind
 Numbers == 0..66
-Contexts == {"normal", "masked", "handler"}
+\* "other_pending": another terminating signal is blocked and pending in the calling thread
+Contexts == {"normal", "masked", "handler", "other_pending"}
 
 VARIABLES sig, ctx, pc, disp, blocked, outcome
 vars == <<sig, ctx, pc, disp, blocked, outcome>>
@@ -22,7 +24,7 @@ Init ==
     /\ sig \in Numbers /\ ctx \in Contexts
     /\ pc = "start"
     /\ disp = (IF ctx = "handler" THEN "lib" ELSE "dfl")
-    /\ blocked = (ctx # "normal")
+    /\ blocked = (ctx \in {"masked", "handler"})
     /\ outcome = "running"
 
 \* raise(s) with the default disposition and s unblocked: the kernel acts at once.
@@ -47,8 +49,12 @@ Restore ==                                               \* :191 restore_default
     /\ UNCHANGED <<sig, ctx, blocked, outcome>>
 
 Unblock ==                                               \* :231 sigprocmask(SIG_UNBLOCK)
-    /\ pc = "unblock" /\ blocked' = (IF Unblocks THEN FALSE ELSE blocked) /\ pc' = "reraise"
-    /\ UNCHANGED <<sig, ctx, disp, outcome>>
+    /\ pc = "unblock" /\ blocked' = (IF Unblocks # "none" THEN FALSE ELSE blocked)
+    \* clearing the whole mask delivers whatever else was pending, first
+    /\ IF Unblocks = "all" /\ ctx = "other_pending"
+       THEN outcome' = "killed_by_another_signal" /\ pc' = "done"
+       ELSE pc' = "reraise" /\ UNCHANGED outcome
+    /\ UNCHANGED <<sig, ctx, disp>>
 
 ReRaise ==                                               \* :233 raise(signal), :237 abort()
     /\ pc = "reraise"
